@@ -207,6 +207,14 @@ def _run(orc, meas, skipped, idx, it, r, progs, mod, k):
     gkind = it.get("case", {}).get("geom", it.get("geom", "affine"))
     for prog in progs:
         prog.form_index = k
+        if prog.itype != "expression" and isinstance(mod, s5.Module):
+            # the compiled form must have the rank of the tensor that is about to be handed to its kernels (a kernel of
+            # another rank would write outside A)
+            have, want = int(mod.objs[k].rank), len(s5.tensor_shape(prog))
+            if have != want:
+                skipped.append({"item": idx, "why": f"ufcx_form.rank = {have} but the tensor of this form under these options "
+                                f"has rank {want}", "rank_mismatch": True})
+                return
         try:
             kernels = mod.kernels(k, prog.itype, prog.subdomain_id)
         except Exception as e:  # noqa: BLE001
